@@ -34,6 +34,15 @@ def thresholds(op):
     return {x for x in t if 0 <= x <= op["total"]}
 
 
+def writepoints(op):
+    """The stream positions at which the client writes: the input of every exchange and, once its echo is complete, the return."""
+    t, off = set(), op["pre"]
+    for e in op["exchanges"]:
+        t |= {off, off + e["echolen"]}
+        off += e["echolen"] + e["resplen"]
+    return {x for x in t if 0 <= x <= op["total"]}
+
+
 def model(ctx, fault, ops_text):
     """Runs Stall.tla in mc mode (all interleavings, compressed lengths) and emit mode (predictions for real lengths)."""
     r = ctx.tlc("Stall", cfg="c.cfg", files={"c.cfg": CFG % (fault, "mc"), "ops.json": ops_text}, timeout=900)
